@@ -14,5 +14,5 @@ PY
 # each property builds its own targets again in ./check; a module that fails here must not stop the others
 cd lean
 for f in Faithful/Properties/C*.lean; do p=$(basename $f .lean); lake build Faithful.Properties.$p fdrv-$p >/dev/null 2>&1 || echo "setup: $p does not build"; done
-for f in Faithful/Ties/C*.lean; do [ -f "$f" ] || continue; p=$(basename $f .lean); lake build Faithful.Ties.$p >/dev/null 2>&1 || echo "setup: tie module $p does not build"; done
+for f in Faithful/Ties/*.lean; do [ -f "$f" ] || continue; p=$(basename $f .lean); lake build Faithful.Ties.$p >/dev/null 2>&1 || echo "setup: tie module $p does not build"; done
 echo setup ok
